@@ -104,7 +104,10 @@ out.append('''
   seedtest.py, run_all.sh.
 * Trusted: z3 (and cbmc for the C12 counter scenarios), clang's IR as the meaning of the source, the engine's
   implementation of the IR semantics (validated every run by the differential replays), the environment models.
-* Costs (16 cores): quick tier 3-150 s per property (sum about 15 min); thorough 5 s - 35 min per property.
+* Costs (16 cores, one check at a time): quick tier 3-150 s per property, all 20 in about 14 min (`vp check`).  Thorough tier, last
+  measured wall times in seconds: C01 700, C02 463, C03 923, C04 175, C05 87, C06 375, C07 212, C08 102, C09 2230,
+  C10 222, C11 41, C12 115, C13 435, C14 36, C15 104, C16 33, C17 5, C18 143, C19 103, C20 5.  Every thorough tier was run to
+  completion with exit 0 on the tree as committed (C01 with its KNOWN-FINDING line).
 ''')
 open(V + '/DESIGN.md', 'w').write('\n'.join(out))
 print('wrote DESIGN.md (%d lines)' % ('\n'.join(out).count('\n') + 1))
